@@ -1,0 +1,11 @@
+//go:build verif
+
+package standard
+
+import "reflect"
+
+// VerifSyncWrites reports the SyncWrites option of the open badger store (verification harness only).
+// badger does not export the options of an open database, hence the reflection.
+func (s *Service) VerifSyncWrites() bool {
+	return reflect.ValueOf(s.store.db).Elem().FieldByName("opt").FieldByName("SyncWrites").Bool()
+}
